@@ -2,7 +2,7 @@
 # tools/allseeds.sh : apply every seeded change in turn, run the property's quick check, record the outcome in seeded/<id>/meta.json
 cd /verif
 for d in seeded/*/; do
-  name=$(basename "$d"); prop=$(echo "$name" | cut -c1-3)
+  name=$(basename "$d"); prop=$(echo "$name" | cut -c1-3); [ -f "$d/check_with" ] && prop=$(cat "$d/check_with")
   [ -f "$d/patch.diff" ] || continue
   if ! git -C /repo apply --check "/verif/$d/patch.diff" 2>/dev/null; then echo "$name: patch does not apply"; continue; fi
   git -C /repo apply "/verif/$d/patch.diff"
